@@ -10,11 +10,44 @@ def jobs(tier):
     return js
 
 
+def big(tier):
+    """One concrete leg at a size with four-digit indices: labelled chain and peptide-like backbone of 1200 atoms
+    (quick) / 3000 (thorough): parse(tucan(G)) has the same counts and reproduces the string."""
+    import json, os, subprocess, sys
+    from symx.driver import VERIF
+    out = []
+    n = 3000 if tier == "thorough" else 1200
+    for fam in ("labelled-chain", "peptide"):
+        r = subprocess.run([sys.executable, "-m", "harness.scale", "run", fam, str(n)], cwd=VERIF, env=dict(os.environ, PYTHONPATH=VERIF, VERIF_SCALE_FIXED_POINT="1"),
+                           capture_output=True, text=True, timeout=3000)
+        try:
+            res = json.loads((r.stdout.strip().splitlines() or ["{}"])[-1])
+        except Exception:
+            res = {"ok": None, "error": (r.stdout + r.stderr)[-300:]}
+        o = {"name": f"big/{fam}-{n}", "ok": True if r.returncode == 0 and res.get("ok") else (False if r.returncode == 1 and res.get("ok") is False else None), "detail": res}
+        if o["ok"] is False:
+            path = os.path.join(VERIF, "evidence", "replays", f"C03-big-{fam}-{n}.json")
+            os.makedirs(os.path.dirname(path), exist_ok=True)
+            json.dump({"property": "C03", "kind": "scale", "family": fam, "n": n, "cmd": f"VERIF_SCALE_FIXED_POINT=1 python -m harness.scale run {fam} {n}", "result": res}, open(path, "w"), indent=1)
+            o["replay"] = path
+            o["values"] = {"family": fam, "n": n}
+        out.append(o)
+    return out
+
+
 def main(tier):
+    from concurrent.futures import ThreadPoolExecutor
+    with ThreadPoolExecutor(max_workers=1) as ex:
+        fut = ex.submit(big, tier)
+        return _main(tier, fut)
+
+
+def _main(tier, fut):
     return run_check(
         "C03", tier, jobs(tier), bounds=dict(std_bounds(tier, relist=False), multi_digit="11-atom chain (indices 10, 11) among the curated skeletons"),
         assumptions=STD_ASSUME + ["token lift: the real graph_from_tucan runs on an instance of the emitted string; before the real listener walks the real parse tree the numeral tokens that stem from symbolic values are set back to placeholders and `int` is shadowed in tucan.parser.parser, so the listener computes on terms. Justified by the numeral-uniformity lemma decided in C10 (the parse tree does not depend on which numeral >= 1 stands at a value position)",
                                   "a missing label and the invariant code's default 0 are the same colour; label presence counts are compared strictly in addition"],
         stubs=["module attribute `int` of tucan.parser.parser shadowed (pass-through on ordinary text)", "tucan.parser.parser._walk_tree wrapped to rewrite numeral token texts before the real walk"],
         outside=["n > 5 beyond the curated skeletons", "all 118 element slots at once (covered by the grammar check of C10/C05)"],
+        extra_obligations=fut,
         explanation="pipeline -> segment string s -> real parser+listener (token lift) -> parsed graph P; obligations: P isomorphic to M with all label terms provably equal (REF-ISO skeleton isomorphisms), atom and bond counts equal, serialize(canonicalize(P)) == s for all values")
